@@ -769,11 +769,29 @@ def rand_limit(out, rnd, g):
         body = E.Op("/", g.polyexpr([x, x], 2), g.polyexpr([x, x], 2))
     else:
         body = E.Op(rnd.choice(["+", "-", "*"]), E.Op("/", g.polyexpr([x], 1), g.polyexpr([x, x], 1)), dsum())
+    k = rnd.random()
+    if k < 0.15:       # constant factors of either sign, inside and outside a reciprocal
+        body = E.Op("/", E.Const(1), E.Op(rnd.choice(["*", "/"]), body, E.Const(rnd.choice([-3, -1, 2, Fraction(-1, 2)]))))
+    elif k < 0.3:
+        body = E.Op("*", E.Const(rnd.choice([-2, -1, 3])), body)
+    elif k < 0.4:
+        body = E.Op(rnd.choice(["*", "/"]), E.Op("^", E.Var(x), E.Const(rnd.choice([1, 2]))), body)
+    elif k < 0.45:
+        body = E.Op("-", body)
     if rnd.random() < 0.15:
         body = E.Op("+", body, E.Var("a"))
     e = E.Limit(x, E.POS_INF, body)
     name = rnd.choice(["ReduceLimit", "FullSimplify", "Sub:ReduceLimit"])
     apply_rule(out, "rand", name, [], [], enc(e), [], {"fam": "lim"})
+
+
+def mode_limits(outp, n, seed):
+    rnd = random.Random(seed * 104729 + 7)
+    g = Gen(rnd)
+    out = Out(outp)
+    for i in range(n):
+        rand_limit(out, rnd, g)
+    out.close()
 
 
 def mode_rand(outp, n, seed):
@@ -992,6 +1010,8 @@ def main(argv):
         mode_replay(argv[1], argv[2])
     elif mode == "rand":
         mode_rand(argv[1], int(argv[2]), int(argv[3]))
+    elif mode == "limits":
+        mode_limits(argv[1], int(argv[2]), int(argv[3]))
     elif mode == "examples":
         mode_examples(argv[1])
     elif mode == "event":
